@@ -59,8 +59,21 @@ def r74(ctx, R):
         cnt = lp.test.id if isinstance(lp.test, ast.Name) else None
         dec = [n for n in own_nodes_of(lp) if isinstance(n, ast.AugAssign)
                and isinstance(n.op, ast.Sub) and src(n.target) == cnt]
-        brk = [n for n in own_nodes_of(lp) if isinstance(n, ast.Break)]
+        # success leaves the loop at once (break, or return from inside it)
+        brk = [n for n in own_nodes_of(lp)
+               if isinstance(n, (ast.Break, ast.Return))
+               and not C._in_handler(n, lp)]
+        # exhaustion raises the provider conflict: in the loop's else, or
+        # in the statement that follows the loop
         els = [n for n in lp.orelse if isinstance(n, ast.Raise)]
+        if not els:
+            par = getattr(lp, '_parent', None)
+            blk = getattr(par, 'body', [])
+            if any(lp is x for x in blk):
+                i_ = [k for k, x in enumerate(blk) if x is lp][0]
+                tail = blk[i_ + 1:]
+                if not any(isinstance(n, ast.Return) for n in tail):
+                    els = [n for n in tail if isinstance(n, ast.Raise)]
         exc = ctx.raises.exc_name(f, els[-1].exc) if els and \
             els[-1].exc is not None else None
         okl = cnt is not None and len(dec) == 1 and g.dominates(
